@@ -7,3 +7,24 @@ TEXT["C02"] = dict(
     note="Trusts netip.ParseAddr/ParseAddrPort of the pinned Go 1.24.2 and golibs' own ValidateHostname/ValidateHostnameLabel as the references the property names.",
     technique="runtime differential monitor against the reference parsers over bounded-exhaustive and mutation-generated strings",
 )
+
+TEXT["C03"] = dict(
+    level="Reference-grammar runtime monitoring: ValidateHostname / ValidateDomainName / ValidateSRVDomainName are run on tens of millions of generated names (bounded-exhaustive label sequences over a boundary pool, length boundaries 63/253 incl. IDN punycode growth, numeric TLDs of every width, alphabet sweeps, mutants, seeded random) and compared with a regexp grammar over idna.ToASCII(s) written from the statement; the subset chain, the dynamic error type and AddrError.Addr are asserted on every rejection. Exploration: all strings cannot be enumerated.",
+    note="Trusts idna.ToASCII (x/net v0.39.0, the version golibs pins) and Go's regexp; the grammar is the statement's, not the code's.",
+    technique="runtime reference-model monitor (regexp grammar oracle) over bounded-exhaustive label sequences and generated names",
+)
+TEXT["C04"] = dict(
+    level="Round-trip and canonical-form runtime monitoring: every generated address (boundary octets^4, every nibble position, wrong-length slices, random IPv6; thorough: all 2^32 IPv4) is encoded and compared with an independent RFC 1035/3596 encoder and decoded back in several letter cases with/without trailing dot; every generated name-shaped string is decoded and an accepted one must be the canonical name of the returned address. Exploration.",
+    note="Trusts the independent encoder in harness/ref (40 lines) and netip value equality.",
+    technique="runtime round-trip monitor plus accepted-language monitor against an independent encoder",
+)
+TEXT["C05"] = dict(
+    level="Reference-decoder runtime monitoring: PrefixFromReversedAddr and ExtractReversedAddr are compared, in success and in value, with a label-sequence decoder written from the statement over exhaustive label sequences around both ARPA roots (octet / non-octet / leading-zero / nibble / multi-char / empty / non-ASCII labels, 0..35 nibbles with a distinguished label at every position, junk prefixes, root misspellings, case and trailing dot). Exploration.",
+    note="Trusts the reference decoder in harness/ref and golibs' own ValidateDomainName for the 'valid domain name' gate (decided by C03).",
+    technique="runtime reference-model monitor (independent label-sequence decoder) over bounded-exhaustive label sequences",
+)
+TEXT["C06"] = dict(
+    level="Documented-list runtime monitoring: both classifiers are run on ALL 2^32 IPv4 addresses (every run) and on IPv6 boundary sets derived from each documented prefix (first/last/+-1, all single-bit and boundary two-bit flips, zones, 4in6 images, 2^16 leading words x tail templates, biased random) and compared with membership in the CIDR lists parsed from the functions' own doc comments. The IPv4 half is exhaustive; the property as a whole is exploration because 2^128 IPv6 addresses are sampled.",
+    note="Trusts go/parser extraction of the doc comment, netip.Prefix.Contains, and the merged-range form of the list (cross-checked against the naive form at start-up).",
+    technique="runtime differential monitor against the documented CIDR lists; exhaustive IPv4 sweep, boundary-directed IPv6 probes",
+)
